@@ -102,3 +102,12 @@ Definition global_obs (c : list text * list (text * bool) * bool) :=
   let '(cl, tbl, pol) := c in
   let m := fun t => match List.find (fun p => text_eqb (fst p) t) tbl with Some p => snd p | None => false end in
   map (fun n => (n, line_start cl n)) (global_lines m cl pol).
+
+From Vicut Require Import Model.Edit.
+Definition reg_obs (r : regcontent) : N * list text :=
+  match r with RSpan t => (0, [t]) | RLine t => (1, [t]) | RBlock rows => (2, rows) | REmpty => (3, []) end.
+(** (clusters, s, e, kind): kind 0 delete (Span), 1 yank, 2 delete lines *)
+Definition edit_obs (c : list text * nat * nat * N) : text * (N * list text) :=
+  let '(cl, s, e, k) := c in
+  let '(rest, reg) := if k =? 0 then delete_range cl s e else if k =? 1 then yank_range cl s e else delete_lines cl s e in
+  (concat rest, reg_obs reg).
